@@ -31,6 +31,7 @@ def rules(ctx):
     c133(ctx)
     c134(ctx)
     c135(ctx)
+    c136(ctx)
 
 
 def c13_open_options(ctx):
@@ -224,6 +225,40 @@ def c135(ctx):
     r = ctx.fn(R, ITER_NEXT)
     if r:
         ctx.ok(R, r, "the reader rebuilds the same Edit (add/rm sets), so replay goes through apply_edit's order")
+
+
+def c136(ctx):
+    R = "C13.6"
+    ctx.declare(R, "a file that may end in a torn edit is rewritten before anything is appended to it")
+    # The reader drops a trailing edit that lacks its separator (C13.1).  Those bytes stay in the file; the next append
+    # would close them off with its own separator and splice half an edit into the history.  open() therefore rewrites
+    # the manifest (rollover: snapshot to TEMPORARY, rename over MANIFEST) whenever the file exists, before the handle is
+    # handed out.
+    f = ctx.fn(R, M + "open")
+    if f:
+        ro = ctx.calls(R, f, M + r"rollover$")
+        oks = P.ok_points(f)
+        skip = set()
+        for b in P.switch_blocks(f):
+            if any(c.endswith("Path::is_file") for c in K.cond_calls(f, b.idx)):
+                for lab, succ in b.succs:
+                    if not any(P.reach(f, [(succ, 0)], [r_]) for r_ in ro):
+                        skip.add((b.idx, lab))
+        p_ = P.reach(f, P.ENTRY, oks, avoid=set(ro) | set(P.error_points(f)), avoid_edges=skip)
+        ctx.check(R, f, "rollover-on-open", p_ is None and bool(skip), "open returns a handle only after rollover(), unless the manifest file does not exist yet",
+                  "open can hand out a handle onto an existing manifest without rewriting it: a torn trailing edit gets completed by the next append's separator "
+                  "and half of it is replayed", path=p_)
+        rm = P.call_points(f, M + r"read_mani$")
+        ctx.order_chain(R, f, [("read_mani", rm), ("rollover", ro)])
+    # rollover rewrites from the in-memory state only (never copies the old file's bytes)
+    g = ctx.fn(R, M + "rollover")
+    if g:
+        te = ctx.calls(R, g, M + r"to_edit$")
+        ap = ctx.calls(R, g, M + r"_apply$")
+        for a in ap:
+            ctx.check(R, g, "snapshot-from-memory", any(c.endswith("Manifest::to_edit") for c in P.origin_calls(g, P.term_at(g, a)["args"][2])),
+                      "the roll-up written is to_edit(strs, info) of the in-memory state", "rollover does not write the in-memory snapshot", pt=a)
+        ctx.check(R, g, "no-copy", not P.call_points(g, r"std::fs::copy$|std::io::copy$"), "rollover does not copy file bytes", "rollover copies the old file's bytes")
 
 
 def c134(ctx):
